@@ -311,7 +311,9 @@ func init() {
 		scen := fs.String("scenarios", "", "write the scenarios (JSON lines) here")
 		park := fs.Bool("park", false, "park mode")
 		par := fs.Int("par", 8, "histories run in parallel (free-running mode)")
+		shareOnly := fs.Bool("shareonly", false, "Share scenarios only (no connectables)")
 		_ = fs.Parse(args)
+		kernel.ShareOnly = *shareOnly
 		kernel.InstallHooks()
 		r := rand.New(rand.NewSource(*seed))
 		w, err := rec.NewWriter(*out)
